@@ -126,7 +126,9 @@ func (s *Schema) AddType(name string, sc jschema.Schema) (err error) {
 			return fmt.Errorf("generate example for Regex type: %w", err)
 		}
 
-		typSc := New(name, fmt.Sprintf("%q // {regex: %q}", example, pattern))
+		// JSON quoting, not Go's: %q writes control characters as \x07 or \a,
+		// which the schema scanner rightly refuses.
+		typSc := New(name, fmt.Sprintf("\"%s\" // {regex: \"%s\"}", escapeJSONString(string(example)), escapeJSONString(pattern)))
 		if err := typSc.load(); err != nil {
 			return fmt.Errorf("load added type: %w", err)
 		}
